@@ -2603,6 +2603,29 @@ class Mesh:
                     f"Setting {key} has been changed since equilibrium was created."
                     f"Re-create or re-load the equilibrium with the current settings."
                 )
+        # Options that belong only to the equilibrium (e.g. nx_core of a
+        # TokamakEquilibrium) are not in self.user_options, so also check the values
+        # that were passed in (evaluated by the equilibrium's own options factory, so
+        # that values given as expressions are compared correctly)
+        equilibrium_factory = getattr(self.equilibrium, "user_options_factory", None)
+        if settings is not None and equilibrium_factory is not None:
+            equilibrium_only_keys = [
+                key
+                for key in settings
+                if key in self.equilibrium.user_options and key not in self.user_options
+            ]
+            if equilibrium_only_keys:
+                settings_as_equilibrium_options = equilibrium_factory.create(settings)
+                for key in equilibrium_only_keys:
+                    if (
+                        settings_as_equilibrium_options[key]
+                        != self.equilibrium.user_options[key]
+                    ):
+                        raise ValueError(
+                            f"Setting {key} has been changed since equilibrium was "
+                            f"created. Re-create or re-load the equilibrium with the "
+                            f"current settings."
+                        )
 
         # Print the table of options
         print(self.user_options.as_table(), flush=True)
